@@ -103,7 +103,7 @@ pub fn execute(case: &str) -> String {
             // Rust's own UTF-8 encoding of a code point (None for surrogates / out of range)
             let c: u32 = it.next().unwrap().parse().unwrap();
             match char::from_u32(c) {
-                Some(ch) => hex(ch.to_string().as_bytes()),
+                Some(ch) => format!("u {}", hex(ch.to_string().as_bytes())),
                 None => "none".into(),
             }
         }
